@@ -459,20 +459,6 @@ package rtpconn
 //@ extern (*diskwriter.Client).Close
 //@   why diskwriter.go: closes the recorder's connections and leaves the group
 //@   modifies nothing
-//@ extern token.Get
-//@   why token/stateful.go: reads the token file under tokens.mu
-//@   modifies nothing
-//@   ensures found: isnil(result2) ==> result0 != nil
-//@ extern token.List
-//@   why token/stateful.go: reads the token file under tokens.mu
-//@   modifies nothing
-//@ extern token.Update
-//@   why token/stateful.go: updates the token file under tokens.mu
-//@   modifies nothing
-//@ extern (*token.Stateful).Clone
-//@   why token/stateful.go: returns a copy
-//@   modifies nothing
-//@   ensures copy: result != nil && fresh(result)
 //@
 //@ func handleClientMessage
 //@   props C11 C12 C15
